@@ -37,3 +37,30 @@ def aliases(fdef, root, fields=()):
             if src == root or root.startswith(src + '.') or any(src == p or src.startswith(p + '.') or src.startswith(p + '[') for p in protected):
                 out += [t.id for t in n.targets if isinstance(t, ast.Name)]
     return out
+
+
+def fresh_per_iteration(loop, name):
+    """In the body of `loop` (a For / While node) the first top-level statement that mentions `name` assigns it from an expression that does not
+    mention it (or empties it in place with name.clear()): what the loop yields / uses for one item carries nothing over from the previous item.
+    Returns True / False, or None when the loop body never mentions the name."""
+    for st in loop.body:
+        if any(isinstance(x, ast.Name) and x.id == name for x in ast.walk(st)):
+            if isinstance(st, ast.Assign) and len(st.targets) == 1 and isinstance(st.targets[0], ast.Name) and st.targets[0].id == name \
+                    and not any(isinstance(x, ast.Name) and x.id == name for x in ast.walk(st.value)):
+                return True
+            if isinstance(st, ast.Expr) and isinstance(st.value, ast.Call) and ast.unparse(st.value.func) == name + '.clear' and not st.value.args:
+                return True
+            return False
+    return None
+
+
+def shared_defaults(fdef):
+    """default argument values that are objects built once, when the function is defined (calls, list / dict / set displays, comprehensions):
+    state kept in them is shared by every call that does not pass the argument"""
+    out = []
+    a = fdef.args
+    names = [x.arg for x in a.args][len(a.args) - len(a.defaults):] + [x.arg for x in a.kwonlyargs]
+    for nm, d in zip(names, list(a.defaults) + list(a.kw_defaults)):
+        if d is not None and isinstance(d, (ast.Call, ast.List, ast.Dict, ast.Set, ast.ListComp, ast.DictComp, ast.SetComp)):
+            out.append('%s=%s' % (nm, ast.unparse(d)))
+    return out
